@@ -108,5 +108,43 @@ func run(flags userFlags) error {
 		return err
 	}
 
-	return os.WriteFile(flags.outFile, buf.Bytes(), 0o600)
+	return writeFileAtomic(flags.outFile, buf.Bytes(), 0o600)
+}
+
+// writeFileAtomic writes data to a temporary file next to name and renames
+// it over name, so that a failed write (e.g. disk full) never leaves a
+// truncated or partial file behind and an existing file stays untouched.
+func writeFileAtomic(name string, data []byte, perm os.FileMode) (err error) {
+	// write through a symlink instead of replacing it
+	if target, lerr := filepath.EvalSymlinks(name); lerr == nil {
+		name = target
+	}
+	// keep the permissions of a file that is being replaced
+	if info, serr := os.Stat(name); serr == nil && info.Mode().IsRegular() {
+		perm = info.Mode().Perm()
+	}
+
+	f, err := os.CreateTemp(filepath.Dir(name), filepath.Base(name)+".tmp*")
+	if err != nil {
+		return err
+	}
+	tmp := f.Name()
+	defer func() {
+		if err != nil {
+			os.Remove(tmp)
+		}
+	}()
+
+	if _, err = f.Write(data); err != nil {
+		f.Close()
+		return err
+	}
+	if err = f.Chmod(perm); err != nil {
+		f.Close()
+		return err
+	}
+	if err = f.Close(); err != nil {
+		return err
+	}
+	return os.Rename(tmp, name)
 }
